@@ -626,6 +626,10 @@ class World:
     def op_net_fin_next_accept(self, step) -> None:
         self.net.fin_new_links.append(step.get("delay", 0.0))
 
+    def op_net_rst_next_accept(self, step) -> None:
+        """The next accepted connection is reset by the peer right away (or `delay` later)."""
+        self.net.fin_new_links.append(("rst", step.get("delay", 0.0)))
+
     def op_net_stall_next(self, step) -> None:
         self.net.stall_new_links.append(step["duration"])
 
